@@ -118,3 +118,17 @@ Theorem C08_follower_bound_from_source : forall s i,
   Gen.chain_refuse (s_p s) (s_h s) (ft s) (lenZ (s_fat s)) i = (i <? Gen.MIN_DATA_CLUSTER (ft s)) || (lenZ (vfat s) <=? i).
 Proof. exact gen_refuse. Qed.
 Print Assumptions C08_follower_bound_from_source.
+
+(** the allocator's bound likewise: one turn of the model's scan, stated with the decisions regenerated from [PyFat.allocate_bytes]
+    ([Gen.alloc_skip]: below the first data cluster, or above the last cluster of the volume / MAX_DATA_CLUSTER) *)
+Theorem C08_allocator_from_source : forall s f i need, vt (ft s) ->
+  alloc_scan (S f) (s_fat s) (ft s) (max_cluster s) i need =
+  if Gen.alloc_skip (s_p s) (s_h s) (ft s) i then alloc_scan f (s_fat s) (ft s) (max_cluster s) (i + 1) need else
+  match need with
+  | O => ([], i)
+  | S nd => if Gen.alloc_take (s_p s) (s_h s) (ft s) (nthZ (s_fat s) i) i
+            then (let '(l, j) := alloc_scan f (s_fat s) (ft s) (max_cluster s) (i + 1) nd in (i :: l, j))
+            else alloc_scan f (s_fat s) (ft s) (max_cluster s) (i + 1) need
+  end.
+Proof. exact alloc_step_gen. Qed.
+Print Assumptions C08_allocator_from_source.
